@@ -124,7 +124,7 @@ CLAIMED.update({
 
 CLAIMED.update({
     'C12': ('translation_validation',
-            'each graph produced by games.enumeration.action_to_steps is validated against the exported symbolic actions: edges by evaluation, input-completeness per node and completeness of the initial set per qinit form as z3 queries over the exported environment action / initial conditions (all next environment values symbolic), liveness of the concrete graph by cycle analysis',
+            'each graph produced by games.enumeration.action_to_steps is validated against the exported symbolic actions: edges by evaluation, input-completeness per node and completeness of the initial set per qinit form as z3 queries over the exported environment action / initial conditions (all next environment values symbolic), liveness of the concrete graph by cycle analysis; enumerate_state_machine graphs of seeded guarded-command machines validated the same way (initial set, successor completeness per node, edges)',
             'Per-artefact validation; the solver supplies the "for each next environment value" and initial-set quantifiers (integer inputs of 2-3 bits), the graph itself is concrete.',
             'Trusted: z3, dd node accessors; the implementations come from the real constructors (C02/C05). Bounds: S11/B11a members and small integer games; environment actions that do not read next component values.',
             'DESIGN.md §3 C12'),
